@@ -263,3 +263,144 @@ def arb_loops(index_buys):
 def t_arbitrage():
     obl, info = ARB_SUBMIT.verify(specs=arb_specs(), loops={0: arb_loops(True), 1: arb_loops(False)})
     return {"obligations": obl, "info": [info]}
+
+
+# ----------------------------------------------------------------------------- Agent holdings accessors and Agent.setup (C18: accessible markets = the listed ids; C05: nothing else writes holdings)
+def _av(st, ag):
+    return st.read(ag, "asset_volumes")
+
+
+def _av_frame(st0, st1, ag, mid, newval=None):
+    """whole-view postcondition of the holdings map: domain and every other value unchanged"""
+    d0, d1 = _av(st0, ag), _av(st1, ag)
+    k = z3.Int("k_av")
+    parts = [d1.term == d0.term, z3.ForAll([k], z3.Select(st1.dict_dom(d1), k) == z3.Or(z3.Select(st0.dict_dom(d0), k), k == mid)),
+             z3.ForAll([k], z3.Implies(k != mid, z3.Select(st1.dict_val(d1), k) == z3.Select(st0.dict_val(d0), k)))]
+    if newval is not None:
+        parts.append(z3.Select(st1.dict_val(d1), mid) == newval)
+    return z3.And(*parts)
+
+
+AV_MODS = lambda st, a: [("dd:Int_Int", [_av(st, a["self"]).term]), ("dv:Int_Int", [_av(st, a["self"]).term])]
+IS_ACCESSIBLE = FSpec("Agent.is_market_accessible", props=("C18", "C20"), result=("bool",), modifies=lambda st, a: [],
+                      post=lambda st0, st1, a, res: [("accessible iff the id is a key of the holdings map", res.term == accessible(st0, a["self"], a["market_id"].term))])
+SET_ACCESSIBLE = FSpec("Agent.set_market_accessible", props=("C18",), modifies=AV_MODS, raises={"ValueError": lambda st, a: accessible(st, a["self"], a["market_id"].term)},
+                       post=lambda st0, st1, a, res: [("the id becomes accessible with position 0; nothing else in the holdings map changes", _av_frame(st0, st1, a["self"], a["market_id"].term, 0))])
+SET_VOLUME = FSpec("Agent.set_asset_volume", props=("C18", "C05"), modifies=AV_MODS, raises={"ValueError": lambda st, a: z3.Not(accessible(st, a["self"], a["market_id"].term))},
+                   post=lambda st0, st1, a, res: [("the position of that market is the given volume; nothing else changes", _av_frame(st0, st1, a["self"], a["market_id"].term, a["volume"].term))])
+UPD_VOLUME = FSpec("Agent.update_asset_volume", props=("C05",), modifies=AV_MODS, raises={"ValueError": lambda st, a: z3.Not(accessible(st, a["self"], a["market_id"].term))},
+                   post=lambda st0, st1, a, res: [("the position of that market moves by delta; nothing else changes",
+                                                   _av_frame(st0, st1, a["self"], a["market_id"].term, z3.Select(st0.dict_val(_av(st0, a["self"])), a["market_id"].term) + a["delta"].term))])
+GET_VOLUME = FSpec("Agent.get_asset_volume", props=("C05",), modifies=lambda st, a: [], result=("int",), raises={"ValueError": lambda st, a: z3.Not(accessible(st, a["self"], a["market_id"].term))},
+                   post=lambda st0, st1, a, res: [("the stored position", res.term == z3.Select(st0.dict_val(_av(st0, a["self"])), a["market_id"].term))])
+UPD_CASH = FSpec("Agent.update_cash_amount", props=("C05",), modifies=lambda st, a: [("f:Agent.cash_amount", [a["self"].term])],
+                 post=lambda st0, st1, a, res: [("cash moves by delta", st1.read(a["self"], "cash_amount").term == st0.read(a["self"], "cash_amount").term + to_real(a["delta"]))])
+SET_CASH = FSpec("Agent.set_cash_amount", props=("C05",), modifies=lambda st, a: [("f:Agent.cash_amount", [a["self"].term])],
+                 post=lambda st0, st1, a, res: [("cash is the given amount", st1.read(a["self"], "cash_amount").term == to_real(a["cash_amount"]))])
+GET_CASH = FSpec("Agent.get_cash_amount", props=("C05",), modifies=lambda st, a: [], result=("real",),
+                 post=lambda st0, st1, a, res: [("the stored cash", to_real(res) == st0.read(a["self"], "cash_amount").term)])
+
+for _spec in (IS_ACCESSIBLE, SET_ACCESSIBLE, SET_VOLUME, UPD_VOLUME, GET_VOLUME, UPD_CASH, SET_CASH, GET_CASH):
+    def _mk(spec):
+        def build():
+            extra = {} if spec is IS_ACCESSIBLE else {("m", "Agent", "is_market_accessible"): IS_ACCESSIBLE.handler()}
+            obl, info = spec.verify(specs=extra)
+            return {"obligations": obl, "info": [info]}
+        build.__doc__ = spec.qual + ": holdings accessor against its whole-view contract"
+        return build
+    task(_spec.qual, props=list(_spec.props), functions=[_spec.qual], replay="holdings")(_mk(_spec))
+
+
+# ----------------------------------------------------------------------------- Agent.setup: accessible markets are exactly the given ids (C18), every position an int draw
+def _setup_ids(st, a):
+    ids = a["accessible_markets_ids"]
+    return ids.term, st.length(ids.term, ("int",)), st.elems(ids.term, ("int",))
+
+
+def agent_setup_pre(st, a):
+    from .config import JSON_RANDOM
+    s = a["settings"]
+    L, n, el = _setup_ids(st, a)
+    pres = [("len >= 0", n >= 0)]
+    for key in ("cashAmount", "assetVolume"):
+        jv = V(("dyn",), z3.Select(st.dict_val(s), z3.StringVal(key)))
+        for label, f in JSON_RANDOM.pre(st, {"json_value": jv}):
+            pres.append((f"{key}: {label}", z3.Implies(z3.Select(st.dict_dom(s), z3.StringVal(key)), f)))
+    return pres
+
+
+def agent_setup_bad_ids(st, a):
+    L, n, el = _setup_ids(st, a)
+    i, j = z3.Ints("i_as j_as")
+    return z3.Or(z3.Exists([i], z3.And(0 <= i, i < n, accessible(st, a["self"], z3.Select(el, i)))),
+                 z3.Exists([i, j], z3.And(0 <= i, i < j, j < n, z3.Select(el, i) == z3.Select(el, j))))
+
+
+def _jr_bad(st, a, key):
+    from .config import jr_raises
+    s = a["settings"]
+    return jr_raises(st, {"json_value": V(("dyn",), z3.Select(st.dict_val(s), z3.StringVal(key)))})
+
+
+def agent_setup_raises(st, a):
+    s = a["settings"]; L, n, el = _setup_ids(st, a)
+    has = lambda key: z3.Select(st.dict_dom(s), z3.StringVal(key))
+    return z3.Or(z3.Not(has("cashAmount")), _jr_bad(st, a, "cashAmount"), z3.Not(has("assetVolume")), z3.And(n > 0, z3.Or(agent_setup_bad_ids(st, a), _jr_bad(st, a, "assetVolume"))))
+
+
+def _asset_spec(st, a):
+    return z3.Select(st.dict_val(a["settings"]), z3.StringVal("assetVolume"))
+
+
+def _plain_int(st, a):
+    v = _asset_spec(st, a)
+    return z3.And(z3.Not(dyn_is_list(v)), z3.Not(dyn_is_dict(v)), dyn_is_int(v))
+
+
+def _plain_int_value(st, a):
+    return dyn_int(_asset_spec(st, a))
+
+
+def agent_setup_post(st0, st1, a, res):
+    L, n, el = _setup_ids(st0, a)
+    ag = a["self"]; k, i = z3.Ints("k_as i_as2")
+    d0, d1 = _av(st0, ag), _av(st1, ag)
+    return [("C18 the agent can access exactly the markets it could before plus the listed ids",
+             z3.And(d1.term == d0.term, z3.ForAll([k], z3.Select(st1.dict_dom(d1), k) == z3.Or(z3.Select(st0.dict_dom(d0), k), z3.Exists([i], z3.And(0 <= i, i < n, z3.Select(el, i) == k)))))),
+            ("positions of markets that were accessible before are untouched",
+             z3.ForAll([k], z3.Implies(z3.Select(st0.dict_dom(d0), k), z3.Select(st1.dict_val(d1), k) == z3.Select(st0.dict_val(d0), k)))),
+            ("an integer assetVolume is the initial position of every listed market",
+             z3.Implies(_plain_int(st0, a), z3.ForAll([i], z3.Implies(z3.And(0 <= i, i < n), z3.Select(st1.dict_val(d1), z3.Select(el, i)) == _plain_int_value(st0, a)))))]
+
+
+def agent_setup_loops():
+    def inv(st, ctx):
+        i = ctx["i"]; e = ctx["entry"]; ag = st.env["self"]
+        a = {"self": ag, "accessible_markets_ids": st.env["accessible_markets_ids"], "settings": st.env["settings"]}
+        L, n, el = _setup_ids(e, a)
+        k, j = z3.Ints("k_asl j_asl")
+        d0, d1 = _av(e, ag), _av(st, ag)
+        return [("accessible = before + the first i ids", z3.And(d1.term == d0.term, z3.ForAll([k], z3.Select(st.dict_dom(d1), k) == z3.Or(z3.Select(e.dict_dom(d0), k), z3.Exists([j], z3.And(0 <= j, j < i, z3.Select(el, j) == k)))))),
+                ("old positions untouched", z3.ForAll([k], z3.Implies(z3.Select(e.dict_dom(d0), k), z3.Select(st.dict_val(d1), k) == z3.Select(e.dict_val(d0), k)))),
+                ("the asset volume specification was accepted if an iteration has completed", z3.Implies(i > 0, z3.Not(_jr_bad(e, a, "assetVolume")))),
+                ("an integer assetVolume is the position of the first i ids", z3.Implies(_plain_int(e, a), z3.ForAll([j], z3.Implies(z3.And(0 <= j, j < i), z3.Select(st.dict_val(d1), z3.Select(el, j)) == _plain_int_value(e, a))))),
+                ("the first i ids were fresh and pairwise distinct", z3.And(z3.ForAll([j], z3.Implies(z3.And(0 <= j, j < i), z3.Not(z3.Select(e.dict_dom(d0), z3.Select(el, j))))),
+                                                                            z3.ForAll([j, k], z3.Implies(z3.And(0 <= j, j < k, k < i), z3.Select(el, j) != z3.Select(el, k)))))]
+    return {0: LoopSpec(inv, modifies=lambda st, ctx: [("dd:Int_Int", [_av(st, st.env["self"]).term]), ("dv:Int_Int", [_av(st, st.env["self"]).term])] + PRNG_MODS,
+                        header="accessible_markets_ids", name="accessible-ids")}
+
+
+PRNG_MODS = ["g:draws"]
+AGENT_SETUP = FSpec("Agent.setup", pre=agent_setup_pre, post=agent_setup_post, props=("C18",), param_types={"settings": ("dict", ("str",), ("dyn",)), "accessible_markets_ids": ("list", ("int",))},
+                    raises={"ValueError": lambda st, a: agent_setup_raises(st, a)},
+                    modifies=lambda st, a: [("dd:Int_Int", [_av(st, a["self"]).term]), ("dv:Int_Int", [_av(st, a["self"]).term]), ("f:Agent.cash_amount", [a["self"].term])] + PRNG_MODS)
+
+
+@task("Agent.setup", props=["C18"], functions=["Agent.setup"], replay="config")
+def t_agent_setup():
+    """Agent.setup: the accessible set grows by exactly the listed ids (loop invariant over the id list); the accessors are used through their contracts"""
+    from .config import JSON_RANDOM
+    specs = {("m", "Agent", "is_market_accessible"): IS_ACCESSIBLE.handler(), ("m", "Agent", "set_market_accessible"): SET_ACCESSIBLE.handler(),
+             ("m", "Agent", "set_asset_volume"): SET_VOLUME.handler(), ("m", "JsonRandom", "random"): JSON_RANDOM.handler()}
+    obl, info = AGENT_SETUP.verify(specs=specs, loops=agent_setup_loops())
+    return {"obligations": obl, "info": [info]}
